@@ -106,6 +106,8 @@ pub(crate) struct Out {
     pub skip: bool,
     /// only error-vs-fault is compared (values are the subject of a sibling harness)
     pub fault_only: bool,
+    /// control transfers: the branch is taken (always true for JMP/CALL/RET)
+    pub taken: bool,
 }
 
 // ---------------------------------------------------------------------------------------
@@ -458,6 +460,7 @@ pub(crate) fn exec(f: &Fields, op: Op, w: u32, sw: u32, cc: u8, pre: &Mach) -> O
         any_regs: 0,
         skip: false,
         fault_only: false,
+        taken: false,
     };
     let nbytes = (w / 8) as usize;
     match op {
@@ -792,6 +795,7 @@ pub(crate) fn exec(f: &Fields, op: Op, w: u32, sw: u32, cc: u8, pre: &Mach) -> O
             }
             out.m.r[RSP_I] = nsp;
             out.m.r[RIP_I] = target as u64;
+            out.taken = true;
         }
         Op::Ret => {
             let v = match rd_mem(pre, pre.r[RSP_I], 8) {
@@ -803,27 +807,33 @@ pub(crate) fn exec(f: &Fields, op: Op, w: u32, sw: u32, cc: u8, pre: &Mach) -> O
             };
             out.m.r[RSP_I] = pre.r[RSP_I].wrapping_add(8);
             out.m.r[RIP_I] = v as u64;
+            out.taken = true;
         }
         Op::JmpRel => {
             out.m.r[RIP_I] = f.branch;
+            out.taken = true;
         }
         Op::JmpRm => {
             let t = rd!(f, pre, 0, 64, out);
             out.m.r[RIP_I] = t as u64;
+            out.taken = true;
         }
         Op::Jcc => {
             if cond(cc, pre.rflags) {
                 out.m.r[RIP_I] = f.branch;
+                out.taken = true;
             }
         }
         Op::Jrcxz => {
             if pre.r[RCX_I] == 0 {
                 out.m.r[RIP_I] = f.branch;
+                out.taken = true;
             }
         }
         Op::Jecxz => {
             if pre.r[RCX_I] & 0xffff_ffff == 0 {
                 out.m.r[RIP_I] = f.branch;
+                out.taken = true;
             }
         }
         Op::Other => {
